@@ -381,6 +381,7 @@ class Case:
         self.tables = None
         self.pre = None          # a path parsed right before the case (ambient history), bytes
         self.alias = False       # build equal sub-containers as one shared Go object
+        self.packed = 0          # > 0: all arrays of a document carved out of one backing array (implementation side only)
         self.pad = None          # with keyc: (n1, n2) blanks before / after: the text is Coq padded_path
         self.nodollar = False    # with keyc: the text is Coq chain_path0 (leading $ omitted)
         self.keyf = None         # with keyc: [function name code points]: the text is Coq chain_fun_path (steps, then .name() each)
@@ -390,7 +391,7 @@ class Case:
 
     def go_json(self):
         return json.dumps({'id': self.id, 'mode': self.mode, 'path_hex': hx(self.path),
-                           'pre_hex': hx(self.pre) if self.pre else '', 'alias': self.alias,
+                           'pre_hex': hx(self.pre) if self.pre else '', 'alias': self.alias, 'packed': self.packed,
                            'filters': self.filters, 'aggs': self.aggs, 'acc': self.acc, 'nocfg': self.nocfg,
                            'docs': [doc_go(d) for d in self.docs]})
 
@@ -441,7 +442,7 @@ class Case:
         return {'id': self.id, 'path': self.path.decode('utf-8', 'backslashreplace'), 'path_hex': hx(self.path),
                 'filters': self.filters, 'aggs': self.aggs, 'accessor': self.acc, 'nocfg': self.nocfg,
                 'docs': [doc_json_text(d) for d in self.docs], 'docs_desc': [doc_go(d) for d in self.docs],
-                'mode': self.mode, 'meta': self.meta, 'alias': self.alias, 'pinned': self.pinned}
+                'mode': self.mode, 'meta': self.meta, 'alias': self.alias, 'pinned': self.pinned, 'packed': self.packed}
 
 
 def parse_obs_line(line):
